@@ -655,6 +655,15 @@ func constVal(k *ssa.Const) Value {
 	return &Opaque{"const " + k.Value.String()}
 }
 
+// isObject: a value that is certainly not nil.
+func isObject(v Value) bool {
+	switch v.(type) {
+	case *Tok, Str, Int, Bool, *Closure, *ssa.Function:
+		return true
+	}
+	return false
+}
+
 func keyOf(v Value) string {
 	switch x := v.(type) {
 	case Str:
@@ -810,7 +819,8 @@ func (ip *Interp) LoadField(obj *Tok, name string, typ types.Type) Value {
 	if ip.O != nil {
 		v = ip.O.Field(ip, obj, name, typ)
 	}
-	if v == nil && obj.Attr["zeroed"] != nil {
+	if v == nil && (obj.Attr["zeroed"] != nil || (obj.Class == "struct" && strings.HasPrefix(obj.ID, "struct#"))) {
+		// (a struct value that began as the zero value of its type: what was not stored since is still zero)
 		v = ip.ZeroOf(typ)
 		if t, ok := v.(*Tok); ok {
 			t.Attr["zeroed"] = Bool(true)
@@ -1450,6 +1460,8 @@ func (ip *Interp) step(f *frame, v ssa.Value) Value {
 		var ok, known bool
 		if _, isNil := val.(Nil); isNil {
 			ok, known = false, true
+		} else if it, isIface := x.AssertedType.Underlying().(*types.Interface); isIface && it.NumMethods() == 0 && isObject(val) {
+			ok, known = true, true // every non-nil value is an `any`
 		} else if ip.O != nil {
 			ok, known = ip.O.TypeTest(ip, val, x.AssertedType)
 		}
